@@ -17,6 +17,7 @@ limitations under the License.
 package fileutils
 
 import "os"
+import "github.com/codenotary/immudb/embedded/verifhook"
 
 func SyncDir(paths ...string) error {
 	for _, path := range paths {
@@ -24,6 +25,7 @@ func SyncDir(paths ...string) error {
 		if err != nil {
 			return err
 		}
+		verifhook.FSSyncDir(path)
 	}
 	return nil
 }
